@@ -104,4 +104,367 @@ def config_statics():
     return "\n".join(out) + "\n"
 
 
-GENERATORS = {"auth_methods": auth_methods, "config_statics": config_statics}
+
+# ---------------------------------------------------------------------------------------------------------------------
+# C14 record codecs (rule N37).  For a struct whose Encode impl is a sequence of `<expr>.encode(buffer);` statements and
+# whose Decode impl is a sequence of `let (x, offset) = <T or Decode>::decode(bytes, offset)?;` statements followed by
+# `Ok((S { .. }, offset))`, the abstract encoding `enc` and the abstract decoder `dec` are READ OFF the two real bodies
+# (statement by statement), the two real bodies are extracted and verified against them, and the law of the statement
+# (decode(encode(v)) == v, consuming exactly the bytes produced, anywhere in a buffer) is a generated lemma
+# prop_record_<S>.  Nothing about the field order or the field list is written by hand: a change that keeps encoder and
+# decoder consistent keeps verifying, one that makes them disagree fails the lemma.
+# Any other statement shape raises GenError (=> UNDECIDED, never an alarm).
+def _split_top(s, sep=","):
+    out, depth, cur = [], 0, ""
+    for ch in s:
+        if ch in "([{<":
+            depth += 1
+        elif ch in ")]}>":
+            depth -= 1
+        if ch == sep and depth == 0:
+            out.append(cur)
+            cur = ""
+        else:
+            cur += ch
+    if cur.strip():
+        out.append(cur)
+    return [x.strip() for x in out if x.strip()]
+
+
+def _strip_comments(t):
+    return re.sub(r"//[^\n]*", "", t)
+
+
+def _norm_ty(t):
+    t = re.sub(r"\s+", "", t)
+    while t.startswith("<") and t.endswith(">"):
+        t = t[1:-1]
+    t = t.replace("::<", "<")
+    return t
+
+
+def _mangle(t):
+    return re.sub(r"\W+", "_", t).strip("_")
+
+
+def _record_parse(relfile, S):
+    from rustscan import find_item
+    text = open(os.path.join(REPO, relfile)).read()
+    try:
+        st = find_item(text, "struct", S)
+        en = find_item(text, "fn", "encode", r"^impl Encode for %s\b" % S)
+        de = find_item(text, "fn", "decode", r"^impl Decode for %s\b" % S)
+    except Exception as e:
+        raise GenError("record %s: %s" % (S, e))
+    fields = []
+    body = _strip_comments(st["body"])
+    body = re.sub(r"#\[[^\]]*\]", "", body, flags=re.S)
+    for f in _split_top(body.strip()[1:-1]):
+        m = re.match(r"(?:pub(?:\([^)]*\))?\s+)?(\w+)\s*:\s*(.+)$", f, re.S)
+        if not m:
+            raise GenError("record %s: field not understood: %r" % (S, f))
+        fields.append((m.group(1), _norm_ty(m.group(2))))
+    ftype = dict(fields)
+    # ---- encoder
+    enc_items = []   # ("field", name, type) | ("const", expr, type)
+    eb = _strip_comments(en["body"]).strip()[1:-1]
+    for stmt in [x.strip() for x in eb.split(";") if x.strip()]:
+        m = re.match(r"^self\.(\w+)\.encode\(buffer\)$", stmt)
+        if m:
+            if m.group(1) not in ftype:
+                raise GenError("record %s: encode writes unknown field %s" % (S, m.group(1)))
+            enc_items.append(("field", m.group(1), ftype[m.group(1)]))
+            continue
+        m = re.match(r"^(.+)\.encode\(buffer\)$", stmt, re.S)
+        if m and "self" not in m.group(1):
+            e = " ".join(m.group(1).split())
+            m2 = re.match(r"^(\w+)::(new|zero)\(\)$", e)
+            m3 = re.match(r"^Option::<(.+)>::None$", e)
+            if m2:
+                enc_items.append(("const", e, m2.group(1)))
+            elif m3:
+                enc_items.append(("none", e, "Option<%s>" % _norm_ty(m3.group(1))))
+            else:
+                raise GenError("record %s: constant of unsupported shape in encode: %r" % (S, e))
+            continue
+        raise GenError("record %s: encode statement of unsupported shape: %r" % (S, stmt))
+    # ---- decoder
+    dec_items = []   # ("bind", var, type|None) | ("skip", var, type)
+    db = _strip_comments(de["body"]).strip()[1:-1].strip()
+    k = db.rfind("Ok((")
+    if k < 0:
+        raise GenError("record %s: decode does not end in Ok((..))" % S)
+    stmts, final = db[:k], db[k:]
+    for stmt in [x.strip() for x in stmts.split(";") if x.strip()]:
+        m = re.match(r"^let \((\w+), offset\)(?:\s*:\s*\(([^;]+), usize\))? = (.+?)::decode\(bytes, offset\)\?$", stmt, re.S)
+        if not m:
+            raise GenError("record %s: decode statement of unsupported shape: %r" % (S, stmt))
+        var, ann, via = m.group(1), m.group(2), m.group(3).strip()
+        ty = _norm_ty(ann) if ann else (None if via == "Decode" else _norm_ty(via))
+        dec_items.append(("skip" if var.startswith("_") else "bind", var, ty))
+    m = re.match(r"^Ok\(\(\s*%s\s*\{(.*)\}\s*,\s*offset\s*,?\s*\)\)$" % re.escape(S), final.strip(), re.S)
+    if not m:
+        raise GenError("record %s: decode result of unsupported shape: %r" % (S, final[:80]))
+    lit = []  # (field, var|None, expr|None)
+    for f in _split_top(m.group(1)):
+        m2 = re.match(r"^(\w+)\s*:\s*(.+)$", f, re.S)
+        if m2:
+            lit.append((m2.group(1), None, " ".join(m2.group(2).split())))
+        elif re.match(r"^\w+$", f):
+            lit.append((f, f, None))
+        else:
+            raise GenError("record %s: struct literal entry not understood: %r" % (S, f))
+    bound = {v for (k_, v, t) in dec_items if k_ == "bind"}
+    for (fld, var, expr) in lit:
+        if fld not in ftype:
+            raise GenError("record %s: literal sets unknown field %s" % (S, fld))
+        if var is not None and var not in bound:
+            raise GenError("record %s: literal uses %s which decode does not bind" % (S, var))
+    if {f for f, _, _ in lit} != set(ftype):
+        raise GenError("record %s: literal does not set every field" % S)
+    # types of inferred binds come from the field they initialise
+    d2 = []
+    for (k_, var, ty) in dec_items:
+        if k_ == "bind":
+            fty = ftype.get(var)
+            if fty is None:
+                raise GenError("record %s: bound variable %s is not a field" % (S, var))
+            if ty is not None and ty != fty:
+                raise GenError("record %s: %s decoded as %s but the field is %s" % (S, var, ty, fty))
+            ty = fty
+        d2.append((k_, var, ty))
+    return {"file": relfile, "name": S, "fields": fields, "enc": enc_items, "dec": d2, "lit": lit,
+            "enc_impl": r"^impl Encode for %s\b" % S, "dec_impl": r"^impl Decode for %s\b" % S}
+
+
+def _ty_parts(t):
+    m = re.match(r"^(Option|Vec)<(.+)>$", t)
+    return (m.group(1), m.group(2)) if m else (None, t)
+
+
+def record_codecs(*specs):
+    """args: <file>:<Struct> ... [leaf=<Type> ...]   (leaf=: a composite type treated as an assumed leaf codec in this unit,
+    used for the recursive field TraceED.calls: Vec<TraceED>, which Verus cannot define through trait dispatch)"""
+    recs = []
+    forced_leaves = [_norm_ty(sp[5:]) for sp in specs if sp.startswith("leaf=")]
+    for sp in specs:
+        if sp.startswith("leaf="):
+            continue
+        f, n = sp.split(":")
+        recs.append(_record_parse(f, n))
+    names = {r["name"] for r in recs}
+    out = ["// ==== generated on this run from the real Encode / Decode impls (rule N37): %s ====" % ", ".join(sorted(names))]
+    # ---- leaf types: every base type that is not one of the records and not a generic codec of unit codec
+    leaves = []
+
+    def visit(t):
+        k, inner = _ty_parts(t)
+        if t in forced_leaves:
+            if t not in leaves:
+                leaves.append(t)
+        elif k:
+            visit(inner)
+        elif t not in names and t not in ("u8", "u32", "u64") and t not in leaves:
+            leaves.append(t)
+    for r in recs:
+        for it in r["enc"]:
+            visit(it[2])
+        for it in r["dec"]:
+            visit(it[2])
+    out.append("// leaf codecs: assumed at this level (fixed-width ones are proved by the Kani harnesses on the real files)")
+    for L in leaves:
+        M = _mangle(L)
+        if L != "String" and L not in forced_leaves:
+            out.append("#[verifier::external_body]\npub struct %s { _p: () }" % L)
+        out.append("pub uninterp spec fn enc_%s(x: %s) -> Seq<u8>;" % (M, L))
+        out.append("pub uninterp spec fn dec_%s(bytes: Seq<u8>, offset: int) -> Option<(%s, int)>;" % (M, L))
+        out.append("pub uninterp spec fn dec_safe_%s(bytes: Seq<u8>, offset: int) -> bool;" % M)
+        out.append("pub uninterp spec fn okv_%s(x: %s) -> bool;" % (M, L))
+        out.append("impl Encode for %s {\n    open spec fn enc(&self) -> Seq<u8> { enc_%s(*self) }\n    #[verifier::external_body]\n    fn encode(&self, buffer: &mut Vec<u8>) { unimplemented!() }\n}" % (L, M))
+        out.append("impl Decode for %s {\n    open spec fn dec(bytes: Seq<u8>, offset: int) -> Option<(Self, int)> { dec_%s(bytes, offset) }\n    open spec fn dec_safe(bytes: Seq<u8>, offset: int) -> bool { dec_safe_%s(bytes, offset) }\n    #[verifier::external_body]\n    fn decode(bytes: &[u8], offset: usize) -> (r: Result<(Self, usize), VErr>) { unimplemented!() }\n}" % (L, M, M))
+        out.append("impl Storable for %s { open spec fn okv(&self) -> bool { okv_%s(*self) } }" % (L, M))
+    out.append("")
+    consts = {}   # expr -> (spec name, exec name, type)
+    fixeds = {}   # (type, expr) -> (spec, exec)
+    for r in recs:
+        S = r["name"]
+        # ---- real struct
+        out.append("/*@extract %s :: struct %s\n@*/" % (r["file"], S))
+        # ---- constants written by the encoder (legacy placeholders) and fields re-created by the decoder
+        xs = []   # spec expression of each encoded item (over `self` / `v`)
+        enc_rewrites = []
+        for (k, a, ty) in r["enc"]:
+            if k == "field":
+                xs.append(("self.%s" % a, ty))
+            elif k == "none":
+                xs.append((a, ty))
+            else:
+                if a not in consts:
+                    nm = "legacy_%s" % _mangle(a)
+                    consts[a] = nm
+                    out.append("// `%s` (a placeholder the encoder still writes): its value is left abstract" % a)
+                    out.append("pub uninterp spec fn %s() -> %s;" % (nm, ty))
+                    out.append("pub axiom fn axiom_%s_storable() ensures %s().okv();" % (nm, nm))
+                    out.append("#[verifier::external_body]\npub fn %s_x() -> (r: %s) ensures r == %s() { unimplemented!() }" % (nm, ty, nm))
+                xs.append(("%s()" % consts[a], ty))
+                if (a + ".encode(buffer)", consts[a] + "_x().encode(buffer)") not in enc_rewrites:
+                    enc_rewrites.append((a + ".encode(buffer)", consts[a] + "_x().encode(buffer)"))
+        ftype = dict(r["fields"])
+        dec_rewrites = []
+        fixed_of = {}
+        for (fld, var, expr) in r["lit"]:
+            if expr is not None:
+                key = (ftype[fld], expr)
+                if key not in fixeds:
+                    nm = "fixed_%s_%s" % (_mangle(ftype[fld]), _mangle(expr))
+                    fixeds[key] = nm
+                    out.append("// `%s` as %s (a field the decoder re-creates instead of reading): its value is left abstract" % (expr, ftype[fld]))
+                    out.append("pub uninterp spec fn %s() -> %s;" % (nm, ftype[fld]))
+                    out.append("#[verifier::external_body]\npub fn %s_x() -> (r: %s) ensures r == %s() { unimplemented!() }" % (nm, ftype[fld], nm))
+                fixed_of[fld] = fixeds[key]
+                dec_rewrites.append(("%s: %s," % (fld, expr), "%s: %s_x()," % (fld, fixeds[key])))
+        n = len(xs)
+        # ---- Storable
+        conj = ["self.%s.okv()" % a for (k, a, ty) in r["enc"] if k == "field"]
+        conj += ["self.%s == %s()" % (fld, nm) for fld, nm in fixed_of.items()]
+        stored = {a for (k, a, ty) in r["enc"] if k == "field"}
+        unstored = [f for f, _ in r["fields"] if f not in stored and f not in fixed_of]
+        out.append("impl Storable for %s {\n    open spec fn okv(&self) -> bool {\n        %s\n    }\n}" % (S, "\n        && ".join(conj) if conj else "true"))
+        # ---- Encode
+        enc_expr = "Seq::<u8>::empty()" + "".join(" + %s.enc()" % x for x, _ in xs)
+        bot = ["        proof {", "            let b0 = old(buffer)@;", "            let ee0 = Seq::<u8>::empty();"]
+        acc = "b0"
+        for i, (x, _) in enumerate(xs, 1):
+            bot.append("            let ee%d = ee%d + %s.enc();" % (i, i - 1, x))
+            acc_new = "%s + %s.enc()" % (acc, x) if i <= 1 else None
+            bot.append("            assert(b0 + ee%d + %s.enc() =~= b0 + ee%d);" % (i - 1, x, i))
+        bot.append("            assert(b0 + ee0 =~= b0);")
+        bot.append("        }")
+        d = ["impl Encode for %s {" % S, "    open spec fn enc(&self) -> Seq<u8> { %s }" % enc_expr, "",
+             "    /*@extract %s :: impl %s :: fn encode" % (r["file"], r["enc_impl"])]
+        for a, b in enc_rewrites:
+            d.append('rewrite* N37 "%s" => "%s"' % (a, b))
+        d.append("bottom:")
+        d += bot
+        d.append("@*/")
+        d.append("}")
+        out += d
+        # ---- Decode
+        dec_lines = []
+        safe_lines = []
+        off = "offset"
+        closers = 0
+        for i, (k, var, ty) in enumerate(r["dec"], 1):
+            pat = var if k == "bind" else "_"
+            dec_lines.append("        match <%s>::dec(bytes, %s) { None => None, Some((%s, o%d)) =>" % (ty, off, pat, i))
+            safe_lines.append("        <%s>::dec_safe(bytes, %s) && match <%s>::dec(bytes, %s) { None => true, Some((_, o%d)) =>" % (ty, off, ty, off, i))
+            off = "o%d" % i
+            closers += 1
+        litx = ", ".join((fld if var else "%s: %s()" % (fld, fixed_of[fld])) for (fld, var, expr) in r["lit"])
+        dec_lines.append("        Some((%s { %s }, %s))" % (S, litx, off))
+        dec_lines.append("        " + "}" * closers)
+        safe_lines.append("        true")
+        safe_lines.append("        " + "}" * closers)
+        d = ["impl Decode for %s {" % S,
+             "    open spec fn dec(bytes: Seq<u8>, offset: int) -> Option<(Self, int)> {"] + dec_lines + ["    }",
+             "    open spec fn dec_safe(bytes: Seq<u8>, offset: int) -> bool {"] + safe_lines + ["    }", "",
+             "    /*@extract %s :: impl %s :: fn decode" % (r["file"], r["dec_impl"]), "ret: r",
+             'rewrite? WHERE "where\\n        Self: Sized," => ""']
+        for a, b in dec_rewrites:
+            d.append('rewrite N37 "%s" => "%s"' % (a, b))
+        d.append("@*/")
+        d.append("}")
+        out += d
+        # ---- the law
+        if len(r["dec"]) != n:
+            # still emit the lemma: it cannot be proved, which is the point (the decoder does not read what the encoder wrote)
+            pass
+        tys = []
+        for _, ty in xs:
+            if ty not in tys:
+                tys.append(ty)
+        for _, _, ty in r["dec"]:
+            if ty not in tys:
+                tys.append(ty)
+        L = ["// C14: %s decodes back to exactly what was encoded and consumes exactly the bytes that were produced" % S,
+             "pub proof fn prop_record_%s()" % S,
+             "    requires " + ", ".join("codec_law::<%s>()" % t for t in tys) + ",",
+             "    ensures codec_law::<%s>()," % S, "{"]
+        for c in sorted(set(consts.values())):
+            L.append("    axiom_%s_storable();" % c)
+        L.append("    assert forall|v: %s, pre: Seq<u8>, post: Seq<u8>| #![trigger <%s>::dec(pre + v.enc() + post, pre.len() as int)]" % (S, S))
+        L.append("        v.okv() implies <%s>::dec_safe(pre + v.enc() + post, pre.len() as int)" % S)
+        L.append("        && <%s>::dec(pre + v.enc() + post, pre.len() as int) == Some((v, (pre.len() + v.enc().len()) as int)) by {" % S)
+        L.append("        let b = pre + v.enc() + post;")
+        L.append("        let ee0 = Seq::<u8>::empty();")
+        for i, (x, ty) in enumerate(xs, 1):
+            xv = x.replace("self.", "v.")
+            L.append("        let x%d: %s = %s; let e%d = x%d.enc(); let ee%d = ee%d + e%d;" % (i, ty, xv, i, i, i, i - 1, i))
+        L.append("        let r%d = post;" % n)
+        for i in range(n, 0, -1):
+            L.append("        let r%d = e%d + r%d;" % (i - 1, i, i))
+        for i in range(n, 0, -1):
+            L.append("        lemma_rebracket(pre, ee%d, e%d, r%d);" % (i - 1, i, i))
+        L.append("        assert(ee0.len() == 0);")
+        for i, (x, ty) in enumerate(xs, 1):
+            L.append("        lemma_record_step::<%s>(pre, ee%d, x%d, r%d);" % (ty, i - 1, i, i))
+        L.append("    }")
+        L.append("}")
+        out += L
+        r["tys"] = tys
+        r["unstored"] = unstored
+        r["fixed_of"] = fixed_of
+        out.append("")
+    # ---- everything together: from the leaf laws to every record
+    derived = []
+    assumed = []
+
+    def derive(t, stack):
+        if ("law", t) in derived:
+            return
+        k, inner = _ty_parts(t)
+        if t in forced_leaves:
+            derived.append(("law", t))
+            if t not in assumed:
+                assumed.append(t)
+        elif k:
+            if inner in stack:   # recursive type (TraceED.calls: Vec<TraceED>): the inner law is the induction hypothesis
+                if t not in assumed:
+                    assumed.append(t)
+                return
+            derive(inner, stack)
+            derived.append(("law", t))
+            derived.append(("call", "prop_law_%s::<%s>();" % ("option" if k == "Option" else "vec", inner)))
+        elif t in names:
+            r = [x for x in recs if x["name"] == t][0]
+            for ft in r["tys"]:
+                derive(ft, stack + [t])
+            derived.append(("law", t))
+            derived.append(("call", "prop_record_%s();" % t))
+        elif t in ("u8", "u32", "u64"):
+            derived.append(("law", t))
+            derived.append(("call", "lemma_codec_%s(); lemma_law_of_ok::<%s>();" % (t, t)))
+        else:
+            derived.append(("law", t))
+            if t not in assumed:
+                assumed.append(t)
+    for r in recs:
+        derive(r["name"], [])
+    out.append("// C14: from the laws of the leaf codecs to every record (and the vectors / options of them that are stored)")
+    out.append("pub proof fn prop_records_all()")
+    out.append("    requires " + ", ".join("codec_law::<%s>()" % t for t in assumed) + ",")
+    out.append("    ensures " + ", ".join("codec_law::<%s>()" % r["name"] for r in recs) + ",")
+    out.append("{")
+    for k, c in derived:
+        if k == "call":
+            out.append("    " + c)
+    out.append("}")
+    note = []
+    for r in recs:
+        note.append("%s: %d encoded items, %d decoded; re-created on decode: %s; never stored: %s" % (
+            r["name"], len(r["enc"]), len(r["dec"]), ", ".join("%s" % f for f in r["fixed_of"]) or "-", ", ".join(r["unstored"]) or "-"))
+    out.append("// " + "\n// ".join(note))
+    return "\n".join(out) + "\n"
+
+
+GENERATORS = {"auth_methods": auth_methods, "config_statics": config_statics, "record_codecs": record_codecs}
